@@ -1,6 +1,7 @@
 import UrcuVerif.Src.DeferLocal
 import UrcuVerif.Src.DeferExec
 import UrcuVerif.Src.DeferRefine
+import UrcuVerif.Src.DeferAbs
 /-!
 # Source refinement, component "defer_rcu queue codec" (C13): generated IR of `_defer_rcu`, `rcu_defer_barrier_queue`,
 # `wake_up_defer` ⊑ L2
@@ -153,6 +154,54 @@ theorem defer_roundtrip_one (fuel : Nat) (env : Env) (base : Loc) (x y : TState)
       (out.ctl = .normal → LoadsFrom base y.q out.events → callsOf out.events = [callV (f, p)]) :=
   defer_then_barrier fuel env base x y f p now inp hxq hyq hyt hyl hq hH hr hw
 
+/-! ## the events are label sequences of the thread-local projections of the concurrent model `Defer/ConcModel.lean` -/
+section abs
+open UrcuVerif.Src.DeferL
+
+/-- **`_defer_rcu(f, p)` ⊑ owner automaton** (`DeferL.olstep`, the projection of `DeferConc.step` on the owner's labels
+`oCall`/`oStQ`/`oStHead`/`oMb`, see `owner_proj`).  From pc `idle` with `wlen = head` and nothing pending (L2's state
+between calls), non-full path: every run – complete or blocked inside `wake_up_defer()` – abstracts (`absO`: `wmb` and the
+accesses of `wake_up_defer()` silent, any unexpected access rejected) to `call f p tl ; stQ … ; stHead ; mb`, accepted by the
+local automaton with the same values; the local state is back at `idle` with the encoder's `head` / `last_fct_in`, and the
+private view is related to it again (`RelOL`). -/
+theorem _defer_rcu_refines_local (fuel : Nat) (priv : Loc → Option Val) (ls : OState) (f p : BitVec 64) (tl : Nat)
+    (rest : List Val) (hr : RelOL ⟨bindParams Gen.Src.«_defer_rcu.params» [wv f, wv p], priv⟩ ls)
+    (hpc : ls.opc = .idle) (hwl : ls.wlen = ls.head) (hpw : ls.pendW = [])
+    (hnf : ¬ (4096 - 2 ≤ ls.head - tl)) (hi : IntInp rest) :
+    ∃ out labs ls', exec fuel Gen.Src.«_defer_rcu» ⟨bindParams Gen.Src.«_defer_rcu.params» [wv f, wv p], priv⟩
+        (.int (tl : Int) :: rest) = .ok out ∧
+      absRunO f p 4096 ls out.events = some (labs, ls') ∧ olrun 4096 ls labs = some ls' ∧ RelOL out.env ls' ∧
+      ls' = { ls with otl := tl, lastIn := (enc1 ls.lastIn f p).2, head := ls.head + (enc1 ls.lastIn f p).1.length,
+                      wlen := ls.head + (enc1 ls.lastIn f p).1.length } ∧
+      labs.length = (enc1 ls.lastIn f p).1.length + 3 := by
+  obtain ⟨out, labs, ls', h1, h2, h3, h4, h5⟩ := defer_rcu_abs fuel _ ls f p tl rest hr hpc hwl hpw
+    (by simp [bindParams, Gen.Src.«_defer_rcu.params»]) (by simp [bindParams, Gen.Src.«_defer_rcu.params»]) hnf hi
+  exact ⟨out, labs, ls', h1, h2, absRunO_olrun f p 4096 _ _ _ _ h2, h3, h4, h5⟩
+
+/-- **`rcu_defer_barrier_queue(queue t, H)` ⊑ runner automaton** (`DeferL.rlstep`, the projection of `DeferConc.step` on
+`rBegin`/`rLd`/`rInvoke`/`rEnd`, see `runner_proj`).  For every budget and every oracle of words, every run – complete,
+blocked at any access, out of budget – abstracts (`absR`: `rmb`/`mb` silent – L2 folds them into `rLd`/`rEnd` –, any
+unexpected access rejected) to a label sequence `ld … ; invoke f p ; … ; fin H` accepted by the local automaton from the
+state after `rBegin` with the same values (slot index, word loaded, function and argument called, `tail` stored); a
+completed run ends at pc `run` with `ri = H`, and the private `last_fct_out` is the local state's. -/
+theorem rcu_defer_barrier_queue_refines_local (fuel : Nat) (priv : Loc → Option Val) (base : Loc) (t T H : Nat)
+    (lo : BitVec 64) (inp : List Val)
+    (hT : priv (.field base "tail") = some (.int (T : Int)))
+    (hlo : priv (.field base "last_fct_out") = some (wv lo)) (hw : WordInp inp) :
+    ∃ out labs ls', exec fuel Gen.Src.«rcu_defer_barrier_queue»
+        ⟨bindParams Gen.Src.«rcu_defer_barrier_queue.params» [.ptr base, .int (H : Int)], priv⟩ inp = .ok out ∧
+      absRunR base (rstart t T H lo) out.events = some (labs, ls') ∧ rlrun (rstart t T H lo) labs = some ls' ∧
+      (out.ctl = .normal → ls'.rpc = .run ∧ ls'.ri = H ∧ ls'.rit = .top ∧ ls'.cur = t ∧
+        out.env.priv (.field base "last_fct_out") = some (wv ls'.lastOut) ∧
+        out.env.priv (.field base "tail") = some (.int (H : Int))) := by
+  obtain ⟨out, labs, ls', h1, h2, h3⟩ := barrier_queue_abs fuel
+    ⟨bindParams Gen.Src.«rcu_defer_barrier_queue.params» [.ptr base, .int (H : Int)], priv⟩ base t T H lo inp
+    (by simp [bindParams, Gen.Src.«rcu_defer_barrier_queue.params»])
+    (by simp [bindParams, Gen.Src.«rcu_defer_barrier_queue.params»]) hT hlo hw
+  exact ⟨out, labs, ls', h1, h2, absRunR_rlrun base _ _ _ _ h2, h3⟩
+
+end abs
+
 /-! ## non-vacuity -/
 section examples
 
@@ -199,6 +248,23 @@ example : ∃ out, exec 2 Gen.Src.«rcu_defer_barrier_queue»
   refine ⟨o, ho, ?_, ?_, e2⟩
   · rw [e1]; simp [ldq, callEv]
   · rw [e1]; simp [ldq, callEv, callsOf, callV]
+
+/-- the same two runs through the local automata: 5 owner labels, 4 runner labels -/
+example : ∃ out labs ls', exec 1 Gen.Src.«_defer_rcu» ⟨bindParams Gen.Src.«_defer_rcu.params» [wv 0x20#64, wv 0x3#64], priv0⟩
+      [.int 5, .int 0] = .ok out ∧
+    absRunO 0x20#64 0x3#64 4096 ⟨.idle, 0, 0, [], 0, 0x10#64, 5, 5⟩ out.events = some (labs, ls') ∧ labs.length = 5 := by
+  obtain ⟨out, labs, ls', h1, h2, -, -, -, h5⟩ := _defer_rcu_refines_local 1 priv0 ⟨.idle, 0, 0, [], 0, 0x10#64, 5, 5⟩
+    0x20#64 0x3#64 5 [.int 0] (by simp [RelOL, priv0]) rfl rfl rfl (by decide) (by simp [IntInp])
+  exact ⟨out, labs, ls', h1, h2, by rw [h5]; simp [enc_ex]⟩
+
+example := rcu_defer_barrier_queue_refines_local 2 priv0 dq 0 5 7 0x10#64 [wv 0x21#64, wv 0x3#64, wv 0#64]
+  (by simp [priv0]) (by simp [priv0]) (by intro v hv; simp at hv; rcases hv with rfl | rfl | rfl <;> exact ⟨_, rfl⟩)
+
+example : DeferL.rlrun (rstart 0 5 7 0x10#64) [.ld 5 0x21#64, .ld 6 0x3#64, .invoke 0x20#64 0x3#64, .fin 7] =
+    some ⟨.run, 0, 7, .top, 7, 0x20#64⟩ := by
+  have h1 : isFct 0x21#64 = true := by decide
+  have h2 : clrFct 0x21#64 = 0x20#64 := by decide
+  simp [DeferL.rlrun, DeferL.rlstep, rstart, h1, h2]
 
 end examples
 
